@@ -41,7 +41,11 @@ impl KnowledgeBase {
     /// Add a rule to the knowledge base
     pub fn add_rule(&self, rule: Rule) -> Result<()> {
         let mut rules = self.rules.write().unwrap();
+        #[cfg(rre_verif)]
+        std::thread::yield_now(); // verification schedule point (no-op unless built with --cfg rre_verif)
         let mut index = self.rule_index.write().unwrap();
+        #[cfg(rre_verif)]
+        std::thread::yield_now(); // verification schedule point (no-op unless built with --cfg rre_verif)
         let mut version = self.version.write().unwrap();
 
         // Check for duplicate rule names
@@ -84,7 +88,11 @@ impl KnowledgeBase {
     /// Remove a rule by name
     pub fn remove_rule(&self, rule_name: &str) -> Result<bool> {
         let mut rules = self.rules.write().unwrap();
+        #[cfg(rre_verif)]
+        std::thread::yield_now(); // verification schedule point (no-op unless built with --cfg rre_verif)
         let mut index = self.rule_index.write().unwrap();
+        #[cfg(rre_verif)]
+        std::thread::yield_now(); // verification schedule point (no-op unless built with --cfg rre_verif)
         let mut version = self.version.write().unwrap();
 
         if let Some(&position) = index.get(rule_name) {
@@ -106,6 +114,8 @@ impl KnowledgeBase {
     /// Get a rule by name
     pub fn get_rule(&self, rule_name: &str) -> Option<Rule> {
         let rules = self.rules.read().unwrap();
+        #[cfg(rre_verif)]
+        std::thread::yield_now(); // verification schedule point (no-op unless built with --cfg rre_verif)
         let index = self.rule_index.read().unwrap();
 
         if let Some(&position) = index.get(rule_name) {
@@ -151,7 +161,11 @@ impl KnowledgeBase {
     /// Enable or disable a rule
     pub fn set_rule_enabled(&self, rule_name: &str, enabled: bool) -> Result<bool> {
         let mut rules = self.rules.write().unwrap();
+        #[cfg(rre_verif)]
+        std::thread::yield_now(); // verification schedule point (no-op unless built with --cfg rre_verif)
         let index = self.rule_index.read().unwrap();
+        #[cfg(rre_verif)]
+        std::thread::yield_now(); // verification schedule point (no-op unless built with --cfg rre_verif)
         let mut version = self.version.write().unwrap();
 
         if let Some(&position) = index.get(rule_name) {
@@ -170,7 +184,11 @@ impl KnowledgeBase {
     /// Clear all rules
     pub fn clear(&self) {
         let mut rules = self.rules.write().unwrap();
+        #[cfg(rre_verif)]
+        std::thread::yield_now(); // verification schedule point (no-op unless built with --cfg rre_verif)
         let mut index = self.rule_index.write().unwrap();
+        #[cfg(rre_verif)]
+        std::thread::yield_now(); // verification schedule point (no-op unless built with --cfg rre_verif)
         let mut version = self.version.write().unwrap();
 
         rules.clear();
@@ -187,6 +205,8 @@ impl KnowledgeBase {
     /// Get knowledge base statistics
     pub fn get_statistics(&self) -> KnowledgeBaseStats {
         let rules = self.rules.read().unwrap();
+        #[cfg(rre_verif)]
+        std::thread::yield_now(); // verification schedule point (no-op unless built with --cfg rre_verif)
 
         let enabled_count = rules.iter().filter(|r| r.enabled).count();
         let disabled_count = rules.len() - enabled_count;
